@@ -1,16 +1,23 @@
 // C18 — pipelines deliver data exactly once, in order, and never deadlock.
 // M: MCPipeline (every tuple of stage archetypes, all interleavings; safety, deadlock freedom, termination).
 // V: free-running random REAL pipelines (harness stage commands + builtins, real pipeline syntax) recorded
-//    by one tracer and validated against TracePipeline (TLC places the channel transfers, IterateInputs'
-//    reader goroutines and the exit sub-steps and evaluates the invariants in every inferred state).
+//
+//	by one tracer and validated against TracePipeline (TLC places the channel transfers, IterateInputs'
+//	reader goroutines and the exit sub-steps and evaluates the invariants in every inferred state).
+//
 // G: behaviours of the model replayed through gated stage commands (gated.go).
 package main
 
 import (
+	"context"
+	"crypto/md5"
+	"encoding/hex"
 	"encoding/json"
 	"fmt"
 	"math/rand"
 	"os"
+	"os/exec"
+	"path/filepath"
 	"runtime"
 	"strconv"
 	"strings"
@@ -22,7 +29,7 @@ import (
 
 func main() { lib.Main("C18", run) }
 
-const invariants = "ExactlyOnceInOrder Conservation SendStopHasError ReaderGoneOnlyIfReaderExited ReaderGoneSilent"
+const invariants = "ExactlyOnceInOrder Conservation SendStopHasError GoneBeforeClose ReaderGoneOnlyIfReaderExited ReaderGoneSilent"
 
 func mcCfg(n, cp, pcap, arch int, cross, live bool) []byte {
 	s := fmt.Sprintf("CONSTANTS Cap = %d PCap = %d MCN = %d ArchLevel = %d IncludeCross = %v\nCONSTANT ScriptOf <- Ident\nSPECIFICATION Spec\nINVARIANT %s NoDeadlock\nCHECK_DEADLOCK %s\n",
@@ -98,6 +105,9 @@ func rejectTrace(c *lib.Ctx, what string, pr *pipeRun, evs []event, cp int, v *l
 
 func run(c *lib.Ctx) error {
 	dir := c.SpecDir("Pipeline")
+	if n, err := strconv.Atoi(os.Getenv("C18_RACE_CHILD")); err == nil {
+		return raceChild(c, n)
+	}
 	if c.Replay != "" {
 		return replay(c)
 	}
@@ -177,7 +187,7 @@ func run(c *lib.Ctx) error {
 		evs []event
 	}
 	var items []item
-	for i := 0; i < npipes; i++ {
+	for i := 0; i < npipes && c.Violations() < 3; i++ {
 		pr := genPipeline(rng, 100+i, g)
 		res := runPipeline(ev, pr, wd)
 		c.AddEvals(1)
@@ -253,6 +263,11 @@ func run(c *lib.Ctx) error {
 	})
 	if firstErr == nil && os.Getenv("C18_SKIP_G") == "" {
 		if err := runG(c, cp, wd); err != nil {
+			setErr(err)
+		}
+	}
+	if firstErr == nil && c.Thorough() && os.Getenv("C18_SKIP_RACE") == "" {
+		if err := raceObserver(c); err != nil {
 			setErr(err)
 		}
 	}
@@ -342,7 +357,7 @@ func handleHang(c *lib.Ctx, ev interface{}, pr *pipeRun, res runResult, wd watch
 	if res2.infra != nil {
 		return lib.Infra("%v", res2.infra)
 	}
-	if res2.hang == nil || !res2.hang.Settled || !sameSig(res.hang.Signature, res2.hang.Signature) {
+	if res2.hang == nil || !res2.hang.Settled || fmt.Sprint(unfinished(res.evs, len(pr.Scripts))) != fmt.Sprint(unfinished(res2.evs, len(pr.Scripts))) {
 		return lib.Infra("watchdog: pipeline %q hung with every goroutine parked (%v) but the hang did not reproduce", pr.code(), res.hang.Signature)
 	}
 	v, err := validate(c, "TracePipeline(hang-prefix)", res.evs, cp, 20*time.Minute)
@@ -361,10 +376,10 @@ func handleHang(c *lib.Ctx, ev interface{}, pr *pipeRun, res runResult, wd watch
 // runG: TLC enumerates the behaviours of GPipeline (exhaustively: the history is part of the state), each
 // is replayed on a real gated pipeline.
 func runG(c *lib.Ctx, cp int, wd watchdog) error {
-	type gcfg struct{ n, level, mcap int }
-	cfgs := []gcfg{{2, 1, 1}}
+	type gcfg struct{ n, level, mcap, sim int } // sim > 0: that many random behaviours (-simulate) instead of all
+	cfgs := []gcfg{{2, 1, 1, 0}}
 	if c.Thorough() {
-		cfgs = []gcfg{{2, 2, 1}, {2, 1, 2}, {3, 1, 1}}
+		cfgs = []gcfg{{2, 2, 1, 0}, {2, 1, 2, 0}, {3, 1, 1, 2500}}
 	}
 	ev := newEvaler()
 	id := 500000
@@ -373,7 +388,12 @@ func runG(c *lib.Ctx, cp int, wd watchdog) error {
 			return lib.Infra("real channel capacity %d is not a multiple of the model capacity %d", cp, gcf.mcap)
 		}
 		name := fmt.Sprintf("GPipeline N=%d level=%d Cap=%d", gcf.n, gcf.level, gcf.mcap)
-		r, err := c.TLC(name, lib.TLCRun{Dir: c.SpecDir("Pipeline"), Module: "GPipeline", Workers: 1, Timeout: 25 * time.Minute, HeapGB: 8,
+		sim := ""
+		if gcf.sim > 0 {
+			sim = fmt.Sprintf("num=%d", gcf.sim)
+			name += " simulate " + sim
+		}
+		r, err := c.TLC(name, lib.TLCRun{Dir: c.SpecDir("Pipeline"), Module: "GPipeline", Workers: 1, Timeout: 25 * time.Minute, HeapGB: 8, Simulate: sim, Depth: 100,
 			Files: map[string][]byte{"GPipeline.cfg": []byte(fmt.Sprintf("CONSTANTS Cap = %d PCap = 1 GN = %d GLevel = %d\nCONSTANT ScriptOf <- Ident\nSPECIFICATION GSpec\nINVARIANT ExactlyOnceInOrder ReaderGoneSilent Emit\n", gcf.mcap, gcf.n, gcf.level))}})
 		if err != nil {
 			return err
@@ -403,6 +423,9 @@ func runG(c *lib.Ctx, cp int, wd watchdog) error {
 		c.Logf("%s: %d behaviours (%d states)", name, len(cases), r.Distinct)
 		diverged, early, blockedSteps := 0, 0, 0
 		for _, gc := range cases {
+			if c.Violations() >= 3 {
+				break // enough evidence; every further hang costs two watchdog periods
+			}
 			id++
 			v := replayBehaviour(ev, id, gc, gcf.mcap, cp, wd)
 			c.AddEvals(1)
@@ -450,11 +473,91 @@ func runG(c *lib.Ctx, cp int, wd watchdog) error {
 		c.Inc("g_behaviours", int64(len(cases)))
 		c.Inc("g_diverged_at_select_race", int64(diverged))
 		c.Inc("g_steps_entered_while_blocked", int64(early))
-		if gcf.n == 2 && gcf.level >= 1 {
-			c.Set("g_exhaustive_"+name, true)
+		c.Set("g_exhaustive "+name, gcf.sim == 0)
+	}
+	return nil
+}
+
+// raceObserver (thorough): the same free-running pipelines under a -race build of this executor. A report
+// of the race detector is no verdict about C18 (it is evidence for C39): it is exit 2 with the report.
+func raceObserver(c *lib.Ctx) error {
+	tmp, err := os.MkdirTemp("", "c18race-")
+	if err != nil {
+		return lib.Infra("%v", err)
+	}
+	defer os.RemoveAll(tmp)
+	sum := md5.Sum([]byte(c.Repo + "\n"))
+	modfile := filepath.Join(c.Root, ".build", hex.EncodeToString(sum[:])[:8], "go.mod")
+	bin := filepath.Join(tmp, "c18race")
+	ctx, cancel := context.WithTimeout(context.Background(), 12*time.Minute)
+	defer cancel()
+	build := exec.CommandContext(ctx, "go", "build", "-race", "-tags", "verif", "-modfile="+modfile, "-o", bin, "./checks/c18")
+	build.Dir = filepath.Join(c.Root, "harness")
+	if out, err := build.CombinedOutput(); err != nil {
+		return lib.Infra("race build failed: %v\n%s", err, out)
+	}
+	n := 150
+	child := exec.CommandContext(ctx, bin, "quick")
+	child.Env = append(os.Environ(), "C18_RACE_CHILD="+strconv.Itoa(n), "VERIF_ROOT="+tmp, "GORACE=halt_on_error=0")
+	out, err := child.CombinedOutput()
+	if strings.Contains(string(out), "WARNING: DATA RACE") {
+		i := strings.Index(string(out), "WARNING: DATA RACE")
+		rep := string(out)[i:]
+		if len(rep) > 6000 {
+			rep = rep[:6000]
+		}
+		return lib.Infra("the race detector reported a data race while %d free-running pipelines ran (no verdict for C18):\n%s", n, rep)
+	}
+	if err != nil {
+		return lib.Infra("race child failed: %v\n%s", err, tail(string(out), 2000))
+	}
+	c.Set("pipelines_under_race_detector", n)
+	return nil
+}
+
+func tail(s string, n int) string {
+	if len(s) > n {
+		return s[len(s)-n:]
+	}
+	return s
+}
+
+func raceChild(c *lib.Ctx, n int) error {
+	ev := newEvaler()
+	wd := watchdog{idle: 60 * time.Second, giveUp: 5 * time.Minute}
+	rng := rand.New(rand.NewSource(c.Seed + 77))
+	for i := 0; i < n; i++ {
+		pr := genPipeline(rng, 100+i, genCfg{maxStages: 6, pBig: 0.35, pBuiltin: 0.15})
+		res := runPipeline(ev, pr, wd)
+		if res.infra != nil || res.hang != nil {
+			return lib.Infra("race child: pipeline %q: %v %v", pr.code(), res.infra, res.hang)
 		}
 	}
 	return nil
+}
+
+// unfinished lists the harness stages whose command has not returned in the recorded events.
+func unfinished(evs []event, n int) []int {
+	ended := make([]bool, n+1)
+	for _, e := range evs {
+		if e.Ev == "End" && (e.K == "exit" || e.R == "gone") {
+			ended[e.S] = true
+		}
+		if e.Ev == "Reset" {
+			for s, l := range e.Logged {
+				if !l {
+					ended[s+1] = true
+				}
+			}
+		}
+	}
+	var out []int
+	for s := 1; s <= n; s++ {
+		if !ended[s] {
+			out = append(out, s)
+		}
+	}
+	return out
 }
 
 func replay(c *lib.Ctx) error {
